@@ -39,6 +39,7 @@ Print Assumptions return_spec.
 
 (* executing a bind = executing the bound action to completion, THEN applying the continuation to its result in the heap and world it left, requiring an action, and executing that *)
 Theorem bind_runs_in_order n ip h w sp m f argv :
+  late_ok f = true ->
   exec (S n) ip h w (VIO (IOBind sp m f None argv)) =
   match exec n ip h w m with
   | Done h1 w1 (inl x) d1 =>
@@ -51,7 +52,7 @@ Proof. exact (IOSpec.bind_runs_in_order n ip h w sp m f argv). Qed.
 Print Assumptions bind_runs_in_order.
 
 Theorem bind_handler n ip h w sp m f rej argv h1 w1 e d1 :
-  exec n ip h w m = Done h1 w1 (inr e) d1 -> unmodelled e = false ->
+  exec n ip h w m = Done h1 w1 (inr e) d1 -> unmodelled e = false -> late_ok rej = true ->
   exec (S n) ip h w (VIO (IOBind sp m f (Some rej) argv)) =
   updd (then_ (bs n ip h1 w1 (TComp (apply_body rej sp [VErr (e_spans e) (e_vals e)]))) (fun h2 w2 r =>
         then_ (run (bs n) ip h2 w2 (force r)) (fun h3 w3 r' =>
@@ -59,15 +60,24 @@ Theorem bind_handler n ip h w sp m f rej argv h1 w1 e d1 :
 Proof. exact (IOSpec.bind_handler n ip h w sp m f rej argv h1 w1 e d1). Qed.
 Print Assumptions bind_handler.
 
+(* a continuation that is no function (or a literal naming no built-in) is accepted when the bind is BUILT; the bound action runs first, with its effects, and the bind then fails in the world it left *)
+Theorem bind_continuation_checked_late n ip h w sp m f rej argv h1 w1 x d1 :
+  late_ok f = false ->
+  exec n ip h w m = Done h1 w1 (inl x) d1 ->
+  exec (S n) ip h w (VIO (IOBind sp m f rej argv)) = Done h1 w1 (inr (mkerr (late_code f) sp)) d1.
+Proof. exact (IOSpec.bind_continuation_checked_late n ip h w sp m f rej argv h1 w1 x d1). Qed.
+Print Assumptions bind_continuation_checked_late.
+
 (* a bind without handler IS sequencing: the bound action, then (apply the continuation, require an action, execute it) *)
 Theorem bind_is_then n ip h w sp m f argv :
+  late_ok f = true ->
   exec (S n) ip h w (VIO (IOBind sp m f None argv)) = then_ (exec n ip h w m) (kleisli n ip f sp).
 Proof. exact (MonadLaws.bind_is_then n ip h w sp m f argv). Qed.
 Print Assumptions bind_is_then.
 
 (* return a >>= f  =  f a   (a: a value an action can yield - not delayed, not itself an action) *)
 Theorem left_identity n ip h w sp a f argv :
-  isthunk a = false -> is_io a = false ->
+  isthunk a = false -> is_io a = false -> late_ok f = true ->
   exec (S (S (S n))) ip h w (VIO (IOBind sp (VIO (IOReturn a)) f None argv)) = kleisli (S (S n)) ip f sp h w a.
 Proof. exact (MonadLaws.left_identity n ip h w sp a f argv). Qed.
 Print Assumptions left_identity.
@@ -105,6 +115,7 @@ Print Assumptions return_yields_deep.
 
 (* (m >>= f) >>= g  =  m, then f's action, then g's action: sequencing is associative (then_assoc) *)
 Theorem assoc_left n ip h w sp m f g argv argv' :
+  late_ok f = true -> late_ok g = true ->
   exec (S (S n)) ip h w (VIO (IOBind sp (VIO (IOBind sp m f None argv)) g None argv')) = pipeline3 n ip sp h w m f g.
 Proof. exact (MonadLaws.assoc_left n ip h w sp m f g argv argv'). Qed.
 Print Assumptions assoc_left.
